@@ -27,7 +27,7 @@ LEVEL_NOTE = (
 )
 TECHNIQUE = "property-based testing with harness-owned schedules: notification-sequence grammar + exact per-scope totals vs. spec-level oracle"
 RULE = (
-    "(also: every shard process first runs and discards a plan of 4600 per-item closures; the Progress members are passed as tuple/list/generator/iterator/frozenset; falsy exception instances) Hypothesis draws a plan spec with nested scopes (optionally registry world with a short history), always-failing "
+    "(also: a composite member that raises in its own increment_completed/increment_failed for one section - the healthy members never see more closures than runnings; every shard process first runs and discards a plan of 4600 per-item closures; the Progress members are passed as tuple/list/generator/iterator/frozenset; falsy exception instances) Hypothesis draws a plan spec with nested scopes (optionally registry world with a short history), always-failing "
     "calls raising Exception subclasses, max_errors, workers, scheduler, schedule, 1..3 observers (optionally one more composite member failing in its own __enter__/__exit__) and optionally a transform_physical callback (copying / in-place, adding a call, wrapping the output). Oracle as in "
     "LEVEL_TEXT. Non-trivial = >= 2 distinct scopes and (a failure or a registry). Distinct = SHA-1 of the case."
 )
@@ -85,6 +85,19 @@ class FaultyObserver(Recorder):
         super().__exit__(exc_type, exc_val, exc_tb)
         if self.where == "exit":
             raise ObserverFault("observer failed while exiting")
+
+    # ... or in its own increment_completed / increment_failed for one section (a display that cannot draw)
+    section = None
+
+    def increment_completed(self, *, section, scope):
+        super().increment_completed(section=section, scope=scope)
+        if self.where == "completed" and section == self.section:
+            raise ObserverFault("observer failed in increment_completed")
+
+    def increment_failed(self, *, section, scope, exception):
+        super().increment_failed(section=section, scope=scope, exception=exception)
+        if self.where == "failed" and section == self.section:
+            raise ObserverFault("observer failed in increment_failed")
 
 
 def gather_labels(a, out=None):
@@ -229,7 +242,8 @@ def cases(draw, max_nodes):
     nobs = draw(st.integers(1, 3))
     faulty = None
     if draw(st.integers(0, 7)) == 0:
-        faulty = {"pos": draw(st.integers(0, nobs)), "where": draw(st.sampled_from(["enter", "exit"]))}
+        faulty = {"pos": draw(st.integers(0, nobs)), "where": draw(st.sampled_from(["enter", "exit", "completed", "failed"])),
+                  "section": draw(st.sampled_from(["stale", "run"]))}
     # how the several Progress objects reach run(): run() documents "Progress | Iterable[Progress]"
     pform = draw(st.sampled_from(["tuple", "tuple", "list", "gen", "iter", "set"]))
     return {"spec": spec, "cfg": cfg, "registry": use_reg, "pre": pre, "nobs": nobs,
@@ -304,6 +318,7 @@ def check_case(ctx, case, record=True):
     if faulty:
         members = list(recs)
         members.insert(faulty["pos"], FaultyObserver(faulty["where"]))
+        members[faulty["pos"]].section = faulty.get("section")
         progress = tuple(Progress(lambda r=r: r) for r in members)
     elif len(recs) == 1 and case.get("pform", "tuple") == "tuple":
         progress = Progress(lambda: recs[0])
@@ -334,7 +349,8 @@ def check_case(ctx, case, record=True):
             ctx.case(case, True, common.sched_classes(case, out) + [f"faulty_member:{faulty['where']}", f"status:{out.status}"])
         if out.verdict or out.uncaught:
             ctx.violation(case2, f"scheduler verdict {out.verdict} {out.verdict_info}; uncaught {out.uncaught!r}")
-        if out.status == "ok":
+        in_notification = faulty["where"] in ("completed", "failed")
+        if out.status == "ok" and not in_notification:
             ctx.violation(case2, "an observer failed in __enter__/__exit__ but run returned normally")
         entered = []
         for ri, r in enumerate(recs):
@@ -347,6 +363,21 @@ def check_case(ctx, case, record=True):
                 ctx.violation(case2, f"observer {ri} (composite with a member failing in __{faulty['where']}__) was entered but "
                                      f"not exited exactly once at the end: {[e[0] for e in evs][-6:]}")
             entered.append(r)
+            if in_notification:
+                # a member failing in its own increment_completed / increment_failed: what the healthy members are told
+                # stays well-formed - never more 'completed'/'failed' than 'running' for a section and scope
+                open_ = collections.Counter()
+                for e in evs:
+                    if e[0] == "running":
+                        open_[(e[1], norm_scope(e[2]))] += 1
+                    elif e[0] in ("completed", "failed"):
+                        open_[(e[1], norm_scope(e[2]))] -= 1
+                        if open_[(e[1], norm_scope(e[2]))] < 0:
+                            ctx.violation(case2, f"observer {ri} (composite with a member failing in its own increment_{faulty['where']} "
+                                                 f"for section {faulty.get('section')}): {e[0]!r} for {e[1:3]} without a matching 'running' "
+                                                 f"(one 'running' was closed twice): {[x[:2] for x in evs][-8:]}")
+        if in_notification:
+            return
         def norm(evs):  # which exception a member sees in __exit__ depends on its position relative to the failing one
             return collections.Counter(repr(e[:1] if e[0] == "exit" else e) for e in evs)
 
